@@ -255,4 +255,22 @@ CHECKS = {
             {"name": "variants", "test": "TestVariants", "quick": 400, "thorough": 5000, "shards": 2},
         ],
     },
+    "C13": {
+        "pkg": "c13",
+        "level": "exploration",
+        "level_text": ("Generated command lists (1-8) whose device outputs have failure strings of the driver-level and operation-level lists "
+                       "planted at generated positions (none, first, middle, last, several), lists that overlap / are empty / contain "
+                       "substrings of each other, stop-on-failed on/off, over seven API variants (generic SendCommand(s)/FromFile, network "
+                       "SendCommands/SendConfigs/SendConfig/FromFile with and without an explicit privilege level). Oracle: a spec model "
+                       "(list in force, substring test on the expected result, aggregate = exactly the failed members in order, collapsed "
+                       "result) and the device's own (mode, line) log for what was and was not transmitted."),
+        "level_note": "Trusted: the C01 normaliser for the expected result text, the device model's line log. Failure strings are non-empty.",
+        "technique": "property-based testing (rapid) vs a spec model of failure marking plus device-side transmission log, virtual time",
+        "rule": ("API x command list x planted failure strings x driver/op lists x stop-on-failed x segmentation. Non-trivial: a failing command "
+                 "that is not the last one, or both lists non-empty and different. Distinct = sha1(case)."),
+        "assumptions": ["failure strings are non-empty and contain no newline or leading/trailing space"],
+        "subs": [
+            {"name": "failed", "test": "TestFailed", "quick": 3000, "thorough": 30000, "shards": 16},
+        ],
+    },
 }
